@@ -318,6 +318,11 @@ def discharge(obl, specfuns, fuel=2, timeout_ms=10000, strategy=("full", 10000, 
     result = {"status": "unknown", "backend": None, "fuel": None, "strategy": sname}
     memo = {}
     for f in (fuel,):  # one query at full fuel: an unprovable low-fuel instance only burns its timeout
+        sk = []
+        if sname in ("ground", "cex"):
+            # skolemize first: the definitions of spec-function applications on the skolem constants get unfolded too
+            g2, sk = _skolemize_goal(obl.goal)
+            neg = z3.Not(g2)
         base = list(obl.hyps) + [neg]
         extra = unfold(base, specfuns, f)
         hyps = list(obl.hyps) + extra
@@ -325,17 +330,36 @@ def discharge(obl, specfuns, fuel=2, timeout_ms=10000, strategy=("full", 10000, 
         if drop_q:
             hyps = [h for h in hyps if not _has_quantifier(h, memo)]
         if sname == "cex":
-            g2, sk = _skolemize_goal(obl.goal)
-            neg = z3.Not(g2)
             terms = sk + [t for t in _ground_terms(g2) if all(not t.eq(c) for c in sk)]
             hyps = hyps + [i for i in _instantiate(allh, terms, cap=300) if not _has_quantifier(i, memo)]
             if _has_quantifier(neg, memo):
                 hyps = None
         if hyps is None:
             break
+        if sname == "ground" and z3.is_quantifier(obl.goal) and obl.goal.is_exists():
+            # an existential goal: its negation is a universal fact; instantiate it at the ground terms of the hypotheses
+            q = obl.goal
+            vs = [z3.Const("neg_" + q.var_name(i).replace("!", "_"), q.var_sort(i)) for i in range(q.num_vars())]
+            negq = z3.ForAll(vs, z3.Not(z3.substitute_vars(q.body(), *reversed(vs))))
+            cands = []
+            for h in hyps:
+                if not _has_quantifier(h, memo):
+                    cands.extend(_ground_terms(h, limit=8))
+            seen_ids, uniq = set(), []
+            for t in sorted(cands, key=lambda t: len(str(t))):
+                if t.get_id() not in seen_ids:
+                    seen_ids.add(t.get_id())
+                    uniq.append(t)
+            inst1 = _instantiate(allh, uniq[:10], cap=150)
+            more = []
+            for t in inst1:
+                more.extend(_ground_terms(t, limit=6))
+            for t in sorted(more, key=lambda t: len(str(t))):
+                if t.get_id() not in seen_ids:
+                    seen_ids.add(t.get_id())
+                    uniq.append(t)
+            hyps = hyps + inst1 + _instantiate([negq], uniq[:30], cap=900)
         if sname == "ground":
-            g2, sk = _skolemize_goal(obl.goal)
-            neg = z3.Not(g2)
             terms = sk + [t for t in _ground_terms(g2) if all(not t.eq(c) for c in sk)]
             inst = _instantiate(hyps, terms)
             # second round: the instances mention new ground terms (e.g. ghost index of the skolem key)
